@@ -243,21 +243,21 @@ Proof.
     destruct (call _ _ _ _ _ _ _ _) as [s1 act].
     assert (Hk : forall w', w_insts w' = w_insts w -> (originals (kill w' i it) <= originals w)%nat).
     { intros w' Hw. unfold originals, kill, set_insts. cbn [w_insts]. rewrite Hw, (filter_upd_dead _ i it Hn). lia. }
-    assert (Hh : forall w', w_insts w' = w_insts w ->
-               (originals (set_insts w' (upd (w_insts w') i (set_helper it))) <= originals w)%nat).
-    { intros w' Hw. unfold originals, set_insts. cbn [w_insts]. rewrite Hw, (Hupd _ i it); [lia|assumption|reflexivity]. }
+    assert (Hh : forall w' n, w_insts w' = w_insts w ->
+               (originals (set_insts w' (upd (w_insts w') i (set_helper_levels it n))) <= originals w)%nat).
+    { intros w' n Hw. unfold originals, set_insts. cbn [w_insts]. rewrite Hw, (Hupd _ i it); [lia|assumption|reflexivity]. }
     assert (Hs : forall w', w_insts w' = w_insts w -> (originals w' <= originals w)%nat).
     { intros w' Hw. unfold originals. rewrite Hw. lia. }
     destruct (eval_act _ _ _ _ _ _ _ _) as [[s2 ar2] r].
     destruct (recv_of m).
-    + destruct act; cbn [fst]; first [apply Hh; reflexivity|apply Hs; reflexivity].
-    + destruct act; cbn [fst]; first [apply Hh; reflexivity|apply Hs; reflexivity].
+    + cbn [fst]. apply Hh. reflexivity.
+    + cbn [fst]. apply Hh. reflexivity.
     + destruct r; [|cbn [fst]; apply Hk; reflexivity].
       destruct act; try (match goal with |- context [match ?d with Some _ => _ | None => _ end] => destruct d end); cbn [fst]; apply Hk; reflexivity.
     + destruct r; [|cbn [fst]; apply Hk; reflexivity].
       destruct act; try (match goal with |- context [match ?d with Some _ => _ | None => _ end] => destruct d end); cbn [fst]; apply Hk; reflexivity.
     + cbn [fst]. apply Hs. reflexivity.
-    + destruct act; cbn [fst]; first [apply Hh; reflexivity|apply Hs; reflexivity].
+    + cbn [fst]. apply Hh. reflexivity.
 Qed.
 
 Theorem originals_run es : forall w, (originals (fold_left (fun w e => fst (step w e)) es w) <= originals w)%nat.
